@@ -30,6 +30,7 @@ from vkit.trace import (
 from vkit.vtime import run_virtual
 
 ROUTES = ["direct", "shortcut", "resource", "ctxteardown", "service"]
+RES_TYPES: list[type] = [type(f"ResT{j}", (), {}) for j in range(3)]
 
 # --------------------------------------------------------------------------- generation
 
@@ -43,6 +44,8 @@ def gen_cb(rng: Any, ids: list[int], depth: int, allow_service: bool, p_raise: f
     if route == "ctxteardown":
         kind = "async"
     cb: dict[str, Any] = {"id": cid, "route": route, "kind": kind, "pass_exception": False, "steps": [], "raises": None, "children": []}
+    if route == "resource":
+        cb["ntypes"] = rng.choice([0, 1, 1, 2, 3])  # 0: type of the value; >1: one resource published under several types
     if route in ("direct", "shortcut"):
         cb["pass_exception"] = rng.random() < 0.5
     if route == "ctxteardown":
@@ -244,7 +247,11 @@ class Run:
             elif route == "shortcut":
                 add_teardown_callback(probe, cb["pass_exception"])
             elif route == "resource":
-                self.ctx.add_resource(object(), f"res{cb['id']}", teardown_callback=probe)
+                n = cb.get("ntypes", 0)
+                if n == 0:
+                    self.ctx.add_resource(object(), f"res{cb['id']}", teardown_callback=probe)
+                else:
+                    self.ctx.add_resource(object(), f"res{cb['id']}", [RES_TYPES[j] for j in range(n)], teardown_callback=probe)
         except BaseException as e:
             self.trace.log("register-failed", cb["id"], error=describe_exc(e))
             raise
@@ -623,6 +630,8 @@ def features(run: Run) -> dict[str, int]:
         inc("contexts_mixing_3plus_routes")
     for r in routes:
         inc(f"route_{r}")
+    if any(byid[cid]["route"] == "resource" and byid[cid].get("ntypes", 0) > 1 for cid in order):
+        inc("resource_route_multi_type")
     if len(raised_ids) >= 2:
         inc("programs_with_2plus_raising")
     if prog.get("cancel"):
